@@ -229,3 +229,16 @@ package kademlia
 //@     invariant ghost(phase) <= 3 && (ghost(phase) == 3 ==> ghost(last) > i)
 //@     invariant forall j :: lz < j && j < len(kc.buckets) ==> has(ghost(visited), j)
 //@     invariant forall j :: i < j && j < lz && j < len(kc.buckets) ==> has(ghost(visited), j)
+
+// ForEachCloser hands on an entry only if it is strictly nearer to x than the locus is
+//@ func (*Cache).ForEachCloser$1
+//@   noframe
+//@   requires kc != nil
+//@   ghostvar closer = false
+//@   ensures [strict] !ghost(closer) ==> !ret
+//@   before call DistanceLt:
+//@     assert [operands] arg0 == x && arg1 == e.Key && arg2 == kc.locus
+//@   after call DistanceLt:
+//@     set closer = res0
+//@   fnspec fn:
+//@     pure
